@@ -50,7 +50,11 @@ KeyOK(M, V(_), Ref, k) ==
        /\ V(k) \notin Ref
        /\ \A k2 \in FdKeys : (M[k2] = M[k]) <=> (V(k2) = V(k))
   ELSE V(k) = M[k]
-BadKeys(M, V(_), Ref) == {k \in MK : ~KeyOK(M, V, Ref, k)}
+(* M is the model's successor of the map B, V the observed successor given  *)
+(* as B's observation patched with the difference list d: only keys that    *)
+(* either side changed can disagree.                                        *)
+BadKeys(M, B, V(_), d, Ref) ==
+  {k \in (DKeys(d) \cap MK) \cup {x \in MK : M[x] # B[x]} : ~KeyOK(M, V, Ref, k)}
 
 Verdict(r) ==
   LET sc   == r.sc
@@ -72,11 +76,11 @@ Verdict(r) ==
          THEN {<<"abnormal", "outcome", "completed", r.outcome>>} ELSE {}
       drift0 == {<<"drift", k, InitMap[k], Vinit(k)>> : k \in {x \in MK : Vinit(x) # InitMap[x]}}
       Mb == ApplySeq(InitMap, sc.pre, "pre")
-      drift1 == {<<"drift", k, Mb[k], Vbefore(k)>> : k \in BadKeys(Mb, Vbefore, RefInit)}
+      drift1 == {<<"drift", k, Mb[k], Vbefore(k)>> : k \in BadKeys(Mb, InitMap, Vbefore, r.d_before, RefInit)}
       EntryBad(j) ==
          LET Me == ForkImage(Ob, roles[j])
              V(k) == Ventry(j, k)
-         IN  {<<"entry", k, Me[k], V(k)>> : k \in BadKeys(Me, V, RefBefore)}
+         IN  {<<"entry", k, Me[k], V(k)>> : k \in BadKeys(Me, Ob, V, r.ch[j].d_entry, RefBefore)}
              \cup {<<"entry", k, Vbefore(k), V(k)>> : k \in DKeys(r.ch[j].d_entry) \ MK}
       (* keys whose entry value already deviates are reported there; what the *)
       (* child's own steps make of them is not judged                         *)
@@ -86,10 +90,10 @@ Verdict(r) ==
              V(k) == Vend(j, k)
              tainted == {t[2] : t \in EntryBad(j)}
          IN  {<<"end", k, Mend[k], V(k)>> :
-                 k \in BadKeys(Mend, V, RefBefore \cup {Oe[k] : k \in FdKeys}) \ tainted}
+                 k \in BadKeys(Mend, Oe, V, r.ch[j].d_end, RefBefore \cup {Oe[k] : k \in FdKeys}) \ tainted}
       Ma == ApplySeq(Ob, sc.post, "post")
       extra == UNION {ExtraFootprint(sc.post[i]) : i \in 1..Len(sc.post)}
-      leak == {<<"leak", k, Ma[k], Vafter(k)>> : k \in BadKeys(Ma, Vafter, RefBefore)}
+      leak == {<<"leak", k, Ma[k], Vafter(k)>> : k \in BadKeys(Ma, Ob, Vafter, r.d_after, RefBefore)}
               \cup {<<"leak", k, Vbefore(k), Vafter(k)>> : k \in (DKeys(r.d_after) \ MK) \ extra}
       data ==
          IF kind_ = "CmdSubst" /\ r.out # "out" THEN {<<"drift", "out", "out", r.out>>}
